@@ -6,11 +6,9 @@ set_option linter.unusedVariables false
 namespace Pool.C05
 open Pool.Gen.C05
 
-/-- a batch without the volatile Sign-message data (`ServerNonces`, `PreviousOutputs`) -/
-def Batch.core (b : Batch) : Batch := { b with nonces := [], prevOuts := [] }
-
 structure Release where
   batch : Option Batch
+  verifiedAt : Option St
   db : DB
   prev : List Out
   sigs : List Sig
@@ -18,44 +16,45 @@ structure Release where
 
 structure Ghost where
   lastVerified : Option Batch
+  verifiedAt : Option St
   log : List Release
 
-def gstep (verifyOk : Batch → Bool) (s : St) (g : Ghost) (op : Op) : St × Ghost :=
+def gstep (verifyOk : St → Batch → Bool) (s : St) (g : Ghost) (op : Op) : St × Ghost :=
   let r := step verifyOk s op
   (r.1, match op, r.2 with
-    | .validate b, .val none => { g with lastVerified := some b }
-    | .finalize _ _, .fin .ok => { g with lastVerified := none }
+    | .validate b, .val none => { g with lastVerified := some b, verifiedAt := some s }
+    | .finalize _ _, .fin .ok => { g with lastVerified := none, verifiedAt := none }
     | .sign _ _ pv, .sign (.ok sigs _) =>
-      { g with log := ⟨g.lastVerified, s.db, pv, sigs, r.1.db.staged⟩ :: g.log }
+      { g with log := ⟨g.lastVerified, g.verifiedAt, s.db, pv, sigs, r.1.db.staged⟩ :: g.log }
     | _, _ => g)
 
-def grun (verifyOk : Batch → Bool) : St → Ghost → List Op → St × Ghost
+def grun (verifyOk : St → Batch → Bool) : St → Ghost → List Op → St × Ghost
   | s, g, [] => (s, g)
   | s, g, op :: ops => let r := gstep verifyOk s g op; grun verifyOk r.1 r.2 ops
 
 /-- what the property demands of one release -/
-def GoodRelease (verifyOk : Batch → Bool) (r : Release) : Prop :=
-  ∃ b, r.batch = some b ∧ verifyOk b = true ∧
+def GoodRelease (verifyOk : St → Batch → Bool) (r : Release) : Prop :=
+  ∃ b s0, r.batch = some b ∧ r.verifiedAt = some s0 ∧ verifyOk s0 b = true ∧
     Forall2 (SigFor r.db b.tx r.prev) b.diffs r.sigs ∧
     ∃ rows, r.staged = some { id := b.id, tid := b.tid, tx := b.tx, rows := rows } ∧
-      rows.map (·.key) = b.diffs.map (·.acct)
+      rows.map (·.key) = b.diffs.map (·.acct) ∧ Forall2 (RowFor r.db) b.diffs rows
 
-def Inv (verifyOk : Batch → Bool) (s : St) (g : Ghost) : Prop :=
+def Inv (verifyOk : St → Batch → Bool) (s : St) (g : Ghost) : Prop :=
   s.pending.map Batch.core = g.lastVerified.map Batch.core ∧
-  (∀ b, g.lastVerified = some b → verifyOk b = true) ∧
+  (∀ b, g.lastVerified = some b → ∃ s0, g.verifiedAt = some s0 ∧ verifyOk s0 b = true) ∧
   ∀ r ∈ g.log, GoodRelease verifyOk r
 
-theorem inv_init (verifyOk : Batch → Bool) (accts : List Acct) (orders : List Ord) :
-    Inv verifyOk (initSt accts orders) ⟨none, []⟩ := by
+theorem inv_init (verifyOk : St → Batch → Bool) (accts : List Acct) (orders : List Ord) :
+    Inv verifyOk (initSt accts orders) ⟨none, none, []⟩ := by
   refine ⟨rfl, ?_, ?_⟩ <;> simp
 
-theorem inv_step (verifyOk : Batch → Bool) (s : St) (g : Ghost) (op : Op) (h : Inv verifyOk s g) :
+theorem inv_step (verifyOk : St → Batch → Bool) (s : St) (g : Ghost) (op : Op) (h : Inv verifyOk s g) :
     Inv verifyOk (gstep verifyOk s g op).1 (gstep verifyOk s g op).2 := by
   obtain ⟨hp, hv, hl⟩ := h
   cases op with
   | validate b =>
     simp only [gstep, step, validate]
-    by_cases hvb : verifyOk b = true
+    by_cases hvb : verifyOk s b = true
     · simp only [hvb, Bool.not_true, Bool.false_eq_true, if_false]
       cases hm : checkMatches s.db b.matched with
       | some e => exact ⟨hp, hv, hl⟩
@@ -63,7 +62,7 @@ theorem inv_step (verifyOk : Batch → Bool) (s : St) (g : Ghost) (op : Op) (h :
         refine ⟨rfl, ?_, hl⟩
         intro b' hb'
         simp at hb'
-        subst hb'; exact hvb
+        subst hb'; exact ⟨s, rfl, hvb⟩
     · simp only [Bool.not_eq_true] at hvb
       simp only [hvb, Bool.not_false, if_true]
       exact ⟨hp, hv, hl⟩
@@ -87,7 +86,7 @@ theorem inv_step (verifyOk : Batch → Bool) (s : St) (g : Ghost) (op : Op) (h :
         simp at hr
         rcases hr with hr | hr
         · subst hr
-          obtain ⟨b', rows, hb', hF, hs', hk, _⟩ := batchSign_ok _ _ _ _ _ hbs
+          obtain ⟨b', rows, hb', hF, hs', hk, _, hrf⟩ := batchSign_ok _ _ _ _ _ hbs
           -- b' is the pending batch with the Sign-message data attached
           cases hsp : s.pending with
           | none => simp [attachAux, hsp] at hb'
@@ -102,13 +101,16 @@ theorem inv_step (verifyOk : Batch → Bool) (s : St) (g : Ghost) (op : Op) (h :
               have hdf : bl.diffs = b0.diffs := (congrArg Batch.diffs hp).symm
               have hid : bl.id = b0.id := (congrArg Batch.id hp).symm
               have htid : bl.tid = b0.tid := (congrArg Batch.tid hp).symm
-              refine ⟨bl, rfl, hv bl hlv, ?_, rows, ?_, ?_⟩
+              obtain ⟨s0, hva, hvo⟩ := hv bl hlv
+              refine ⟨bl, s0, rfl, hva, hvo, ?_, rows, ?_, ?_, ?_⟩
               · subst hb'
                 simpa [htx, hdf, attachAux] using hF
               · subst hb'
                 simp [hs', attachAux, htx, hid, htid]
               · subst hb'
                 simpa [hdf] using hk
+              · subst hb'
+                simpa [hdf, attachAux] using hrf
         · exact hl r hr
   | finalize id mf =>
     simp only [gstep, step, finalize]
@@ -126,7 +128,7 @@ theorem inv_step (verifyOk : Batch → Bool) (s : St) (g : Ghost) (op : Op) (h :
           | some db' => exact ⟨rfl, by simp, hl⟩
   | unstage => exact ⟨hp, hv, hl⟩
 
-theorem inv_grun (verifyOk : Batch → Bool) (s : St) (g : Ghost) (ops : List Op) (h : Inv verifyOk s g) :
+theorem inv_grun (verifyOk : St → Batch → Bool) (s : St) (g : Ghost) (ops : List Op) (h : Inv verifyOk s g) :
     Inv verifyOk (grun verifyOk s g ops).1 (grun verifyOk s g ops).2 := by
   induction ops generalizing s g with
   | nil => exact h
